@@ -6,6 +6,9 @@ VERIF = os.path.dirname(os.path.dirname(os.path.abspath(__file__)))
 
 TECH = "bounded symbolic execution of the real functions (CrossHair + z3), per-obligation path-tree exhaustion, concrete replay of counterexamples"
 
+TECH_SMT = ("; plus direct z3 queries (sequence/regex theory, no length bound) for the regular-expression gates, whose patterns "
+            "and applied methods are read from the current source by AST (engine/regex_smt.py), models replayed through the real functions")
+
 # property id -> (claimed?, level text, level note, design ref)
 CHECKS = {}
 NOT_APPLICABLE = {}
@@ -32,7 +35,7 @@ def build():
             "engine": "crosshair-z3",
             "level_claimed": {"category": "other", "text": text, "design_ref": ref},
             "level_note": note,
-            "technique": TECH,
+            "technique": TECH + (TECH_SMT if pid in ("C01", "C09") else ""),
         })
     m = {
         "version": 1,
